@@ -379,6 +379,9 @@ def timed_kill_case(template, workdir, case_id, delay):
             E.db.generate_mapping(create_tables=False, check_tables=False)
             for gen in range(1, 100000):
                 with E.db_session:
+                    # tiny page cache: SQLite has to spill modified pages into the database file in the MIDDLE of the
+                    # transaction, so a kill at any instant finds a partly rewritten file that only the journal can undo
+                    if gen == 1: E.db.get_connection().execute('PRAGMA cache_size = 4')
                     for b in E.B.select():
                         b.gen = gen; b.payload = chr(97 + gen % 26) * BIG_WIDTH
                 if gen == 1: os.write(w, b'x')
